@@ -1073,6 +1073,11 @@ def _graph_pop(
     elif not is_node_leaf(value):
       continue
     elif id(value) in id_to_index:
+      # a shared leaf that was already popped through another attribute: it is
+      # in the returned state once, detach this reference to it as well
+      node_impl = get_node_impl(node)
+      if node_impl is not None and not isinstance(node_impl, PytreeNodeImpl):
+        node_impl.pop_key(node, name)
       continue
 
     node_path = (*path_parts, name)
